@@ -67,6 +67,8 @@ theorem rangeFind_sync (input : List UInt8) (s : Nat) (p : Int → Except Py.Rai
 /-! ## the loops -/
 
 theorem double_cast (L : Nat) : ((L : Int) * 2) = ((L * 2 : Nat) : Int) := by omega
+theorem double_cast' (L : Nat) : (2 * (L : Int)) = ((L * 2 : Nat) : Int) := by omega
+theorem double_cast'' (L : Nat) : ((L : Int) + (L : Int)) = ((L * 2 : Nat) : Int) := by omega
 
 @[simp] theorem failed_ok : Py.failed .ok = false := rfl
 @[simp] theorem failed_e2big : Py.failed .e2big = true := rfl
@@ -80,7 +82,7 @@ macro "round_simp" "[" hs:simpLemma,* "]" : tactic =>
   `(tactic| simp only [IconvDl._decode_dl_loop, IconvDl._encode_dl_loop, decodeLoop, encodeLoop, Py.csize, Py.len, Py.createUnicodeBuffer,
       Py.createStringBuffer, Py.iconvReset, Py.iconvFlush, failed_ok, failed_e2big, failed_eilseq, failed_einval, failed_other, Py.getErrno,
       Py.iconvConv, callBoth, Int.toNat_natCast, beq_self_eq_true, if_true, Bool.false_eq_true, if_false, reduceCtorEq, Bool.not_true,
-      Bool.not_false, ↓reduceIte, syncEnd, beq_iff_eq, Bool.true_or, Bool.or_true, Bool.or_false, Bool.false_or, Bool.or_self, double_cast,
+      Bool.not_false, ↓reduceIte, syncEnd, beq_iff_eq, Bool.true_or, Bool.or_true, Bool.or_false, Bool.false_or, Bool.or_self, double_cast, double_cast', double_cast'',
       Py.errnoNat, List.nil_append, $hs,*])
 
 theorem decode_loop_eq (cd : Py.Cd) (enc : List Nat) (input : List UInt8) : ∀ (fuel L : Nat) (w : Py.World),
